@@ -3,6 +3,7 @@ package main
 // Calls (contract application), builtins, returns, panics, frame obligations.
 
 import (
+	"go/token"
 	"fmt"
 	"go/types"
 	"sort"
@@ -68,6 +69,25 @@ func (vc *VC) lockOp(c *ssa.CallCommon, st *State) bool {
 	case "rlock":
 		vc.assumeIf(reach, fmt.Sprintf("(not (select %s %s))", w, a))
 	}
+	// atomicity of an operation of a lock-owning type: a METHOD that has released a mutex of its own receiver does not
+	// take that mutex again -- a second critical section would act on state that other goroutines may have changed in
+	// between (check-then-act). Applies to the function under contract itself, also where it executes contract-less
+	// wrappers in place, but only for mutexes reached from its own receiver.
+	if vc.ownsLock(c.Args[0]) {
+		rel := vc.heap(st, "GH.lkRel", "(Array Int Bool)")
+		if !vc.lkRelInit {
+			vc.lkRelInit = true
+			vc.d.axioms = append(vc.d.axioms, "(assert (forall ((a!l Int)) (! (not (select GH.lkRel!0 a!l)) :pattern ((select GH.lkRel!0 a!l)))))")
+		}
+		switch op {
+		case "lock", "rlock":
+			if !vc.spec.LocksHeld {
+				vc.oblige("lock.atomic", "", reach, fmt.Sprintf("(not (select %s %s))", rel, a), "the method has not already released this lock of its receiver (one critical section per operation)")
+			}
+		case "unlock", "runlock":
+			vc.setHeap(st, "GH.lkRel", "(Array Int Bool)", fmt.Sprintf("(store %s %s true)", rel, a))
+		}
+	}
 	switch op {
 	case "lock":
 		vc.setHeap(st, "GH.lkW", "(Array Int Bool)", fmt.Sprintf("(store %s %s true)", w, a))
@@ -79,6 +99,41 @@ func (vc *VC) lockOp(c *ssa.CallCommon, st *State) bool {
 		vc.setHeap(st, "GH.lkR", "(Array Int Int)", fmt.Sprintf("(store %s %s (- (select %s %s) 1))", r, a, r, a))
 	}
 	return true
+}
+
+// ownsLock: the mutex address is a field path rooted at the receiver of the method being verified (not of a callee that
+// is executed in place).
+func (vc *VC) ownsLock(addr ssa.Value) bool {
+	if vc.fn == nil || vc.fn.Signature.Recv() == nil || len(vc.fn.Params) == 0 {
+		return false
+	}
+	v := addr
+	for {
+		switch y := v.(type) {
+		case *ssa.FieldAddr:
+			v = y.X
+			continue
+		case *ssa.UnOp:
+			// embedded pointer (w.Flushable.lock with *Flushable embedded): load of a field of the receiver
+			if y.Op == token.MUL {
+				if fa, ok := y.X.(*ssa.FieldAddr); ok {
+					v = fa.X
+					continue
+				}
+			}
+		}
+		break
+	}
+	if v == ssa.Value(vc.fn.Params[0]) {
+		return true
+	}
+	// inside a callee executed in place, the callee's receiver parameter stands for the caller's receiver
+	if p, ok := v.(*ssa.Parameter); ok && vc.inl != nil {
+		if t, ok := vc.vals[p]; ok && t == vc.vals[vc.fn.Params[0]] {
+			return true
+		}
+	}
+	return false
 }
 
 func (vc *VC) execCall(x *ssa.Call, c *ssa.CallCommon, st *State, holder ssa.Value) {
@@ -1049,7 +1104,7 @@ func (vc *VC) frameObligations(st *State, reach string) {
 		srt := vc.heapSorts[n]
 		cur := st.heaps[n]
 		init := n + "!0"
-		if cur == init || n == "GH.lkW" || n == "GH.lkR" {
+		if cur == init || n == "GH.lkW" || n == "GH.lkR" || n == "GH.lkRel" {
 			continue // (the lock state is checked by lock.balanced, not by the frame)
 		}
 		whole := false
